@@ -81,6 +81,7 @@ type Lay struct {
 	Zones   int64  `json:"zones"`          // != 0: the time.Time values are held in varying locations (same instants), chosen from this seed
 	ReAnn   int    `json:"reann"`          // != 0: annotate the same (now annotated, Updates set) parents a second time: -2 without ChildFilter, -1 filter rejects all, k filter accepts only child k
 	Huge    *Huge  `json:"huge,omitempty"` // the parent is expanded to N references before the call (see Huge)
+	Pin     int    `json:"pin"`            // commit times present: versions at abstract time pin-1 carry Timestamp == CommitInfoStart exactly (0 = off)
 	Late    bool   `json:"late"`           // timestamp regime: no commit info although every timestamp is after CommitInfoStart
 }
 
@@ -328,9 +329,16 @@ func (s *sym) stamps(t int) (time.Time, *time.Time) {
 	switch {
 	case s.c.O.Regime == "commit":
 		c := s.time(t)
+		if s.c.Lay.Pin > 0 && t == s.c.Lay.Pin-1 {
+			// the boundary instant itself: "on or after CommitInfoStart" still means the commit time counts
+			return osm.CommitInfoStart, &c
+		}
 		return c.Add(-time.Duration(s.c.Lay.Skew) * time.Second), &c
 	case s.c.O.Regime == "mixed" && t >= s.c.O.Cut:
 		c := s.time(t)
+		if s.c.Lay.Pin > 0 && t == s.c.Lay.Pin-1 {
+			return osm.CommitInfoStart, &c
+		}
 		return c, &c
 	}
 	return s.time(t), nil
